@@ -185,6 +185,7 @@ def maybeAccept (s : State) (b : BlockAbs) : State × Option Bool :=
   | none => (s, none)
   | some p =>
     if (s.status b.parent).knownInvalid then (s, none)
+    else if (s.status b.hash).knownInvalid then (s, none)   -- its own (header-only) node is known invalid
     else if !(b.hdrOk && b.ctxOk) then (s, none)
     else
       match lookup s.idx b.hash with
@@ -430,6 +431,7 @@ def maybeAcceptFast (s : State) (b : BlockAbs) : State × Option Bool :=
   | none => (s, none)
   | some p =>
     if (s.status b.parent).knownInvalid then (s, none)
+    else if (s.status b.hash).knownInvalid then (s, none)
     else
       match lookup s.idx b.hash with
       | some n => connectBestFast (s.markData b.hash) n
